@@ -164,7 +164,7 @@ fn main() {
             if id == "C14" {
                 let calls = c14::gen_corpus(cfg.seed, 300);
                 let expected = c14::reference_results(&calls);
-                let chk = c14::C14 { corpus: c14::Corpus { calls, expected } };
+                let chk = c14::C14 { dense: Default::default(), corpus: c14::Corpus { calls, expected } };
                 let o = run_batch(&chk, &cfg);
                 std::process::exit(flush_and_code(&o.out_lines, 0));
             }
